@@ -298,9 +298,19 @@ class AssignBase(StatementBase):
         get_deps = self.get_dependency_mapper()
 
         def get_vars(expr):
-            return frozenset(dep.name for dep in get_deps(self.rhs))
+            return frozenset(dep.name for dep in get_deps(expr))
 
-        result = get_vars(self.rhs) | get_vars(self.lhs)
+        result = result | get_vars(self.rhs)
+
+        # The subscript of a subscripted assignee is read. (The assignee
+        # itself is a written variable.)
+        from pymbolic.primitives import Subscript
+        if isinstance(self.lhs, Subscript):
+            index = self.lhs.index
+            if not isinstance(index, tuple):
+                index = (index,)
+            for index_expr in index:
+                result = result | get_vars(index_expr)
 
         return result
 
